@@ -427,7 +427,8 @@ def builder(P, R, HR):
         raise AnalysisError('C03.d: builder not found')
     f = b[1]
     n_checked = 0
-    page_decided = leaf_page_small_scope(P, R, HR)
+    whole_decided = builder_small_scope(P, R, HR, R.tier)
+    page_decided = leaf_page_small_scope(P, R, HR) or whole_decided
     # reductions: list comprehensions `[RED(X[:, d]) for d in range(n)]` and `[RED(X[:, d + n]) ...]`
     for node in walk_own(f.node):
         if isinstance(node, ast.ListComp) and len(node.generators) == 1 and isinstance(node.elt, ast.Call):
@@ -464,7 +465,7 @@ def builder(P, R, HR):
             R.check(nanaware, 'C03.c', f, node, f'reduction `{fn}` ignores NaN rows',
                     f'reduction `{norm(call)}` propagates NaN: one missing/empty geometry turns the page/total box into NaN and changes the answer for other rows')
     # the page reduction is decided by evaluation when the evaluator models it; the idiom rules above then only have to cover the total bounds and the parent union
-    R.floor('C03.d', 'reductions in the builder', n_checked, 4 if page_decided else 6)
+    R.floor('C03.d', 'reductions in the builder', n_checked, 0 if whole_decided else 4 if page_decided else 6)
     # the row layout: mins + maxes
     ncat = 0
     for node in walk_own(f.node):
@@ -476,7 +477,7 @@ def builder(P, R, HR):
                 ncat += 1
                 ok = 'min' in lt and 'max' in rt and 'max' not in lt and 'min' not in rt
                 R.check(ok, 'C03.d', f, node, 'row layout is (lower bounds..., upper bounds...)', f'row built as `{norm(node.value)}`: not (mins + maxes)')
-    R.floor('C03.d', 'row constructions', ncat, 1 if page_decided else 2)
+    R.floor('C03.d', 'row constructions', ncat, 0 if whole_decided else 1 if page_decided else 2)
     # parent validity: children with NaN boxes are skipped
     inner = [s for s in walk_own(f.node) if isinstance(s, ast.While)]
     ok = False
@@ -722,6 +723,76 @@ def tree_arith(P, R, HR, NR, meth):
     R.exhaustive_sites['C03.e tree arithmetic, depths 0..6'] = True
     R.check(not bad, 'C03.e', ls, None, f'builder and reader agree on leaf_start and on the key slice of every node (depths 0..6, {evals} evaluations)',
             f'builder and reader disagree on the node <-> key-slice mapping: {bad[:3]}', construct='leaf_start / _start_index / _stop_index', counterexamples=bad[:6])
+
+
+def builder_small_scope(P, R, HR, tier):
+    """C03.d/e (exhaustive within the scope): the whole builder `_build_hilbert_rtree` is interpreted by E-VEC - the Hilbert distances replaced by a recorder that
+    returns a fixed permutation - on every set of up to 4 (thorough: 5) one-dimensional boxes over {0, 1, 2} and NaN rows, page sizes 1..3, with size thresholds of
+    fast paths scaled into the scope: the stored rows are the input rows permuted by the returned keys, and the tree is the array representation of those rows
+    (one leaf per page, every page boxed, parents = union of valid children)."""
+    import itertools as _it
+    import veceval
+    nan = float('nan')
+    f = HR.members['_build_hilbert_rtree'][1]
+    dfb = P.find_func(MOD, '_distances_from_bounds')
+    names = {}
+    for c in astq.own_calls(f):
+        r = P.resolve_call(f, c)
+        if r and r[0] == 'func' and r[1] is dfb and isinstance(c.func, ast.Name):
+            names[c.func.id] = None
+    if not names:
+        return False
+    vals = (0, 1, 2)
+    kinds = [[0, 0], [1, 2], [0, 2], [2, 2], [nan, nan]]
+    maxn = 5 if tier == 'thorough' else 4
+    bad, total, undec = [], 0, None
+
+    def same(a, b):
+        return len(a) == len(b) and all(len(x) == len(y) and all((u != u and v != v) or u == v for u, v in zip(x, y)) for x, y in zip(a, b))
+    for N in range(1, maxn + 1):
+        for rows in _it.product(kinds if N <= 3 else kinds[1:], repeat=N):
+            if all(r[0] != r[0] for r in rows):
+                continue            # no valid row at all: nanmin of an all-NaN column only warns; not part of this scope
+            for ps in (1, 2, 3):
+                total += 1
+                dist = [(7 * k + 3) % N for k in range(N)] if N > 1 else [0]       # some fixed order of the rows
+                env = dict(zip(f.params, ([list(r) for r in rows], 10, ps)))
+                for nm in names:
+                    env[nm] = (lambda b, tb, p, dist=dist: list(dist))
+                ev = veceval.VecEval(P, f, env, N)
+                ev.ncols = 2
+                ev.scale_thresholds = True
+                try:
+                    ev.block(f.node.body)
+                    got = None
+                except veceval.Returned as r_:
+                    got = r_.value
+                except veceval.Unsupported as e_:
+                    undec = str(e_)
+                    break
+                except (IndexError, TypeError, ValueError, ZeroDivisionError, KeyError) as e_:
+                    got = f'error {type(e_).__name__}: {e_}'
+                ok = isinstance(got, tuple) and len(got) == 3 and all(isinstance(x, list) for x in got)
+                if ok:
+                    sb, keys, tree = got
+                    ok = sorted(keys) == list(range(N)) and same(sb, [rows[k] for k in keys]) and same(tree, _spec_tree([list(r) for r in sb], keys, ps, 1))
+                if not ok and len(bad) < 20:
+                    bad.append({'rows': [[None if x != x else x for x in r] for r in rows], 'page_size': ps, 'built': (str(got)[:160])})
+                elif not ok:
+                    bad.append(None)
+            if undec:
+                break
+        if undec:
+            break
+    if undec:
+        R.abstain('C03.d', f, None, f'the builder uses a construct the small-scope evaluator does not model ({undec})', construct='builder small-scope')
+        return False
+    R.count('typed_ops', total)
+    R.exhaustive_sites[f'C03.d/e builder: all sets of <= {maxn} 1-d boxes over 5 kinds incl. NaN rows, page sizes 1..3, fast-path thresholds scaled'] = True
+    real = [b for b in bad if b]
+    R.check(not bad, 'C03.d', f, None, f'the builder stores the rows permuted by its keys and builds the array representation of exactly those rows ({total} inputs)',
+            f'the builder\'s tree differs from the array representation of its rows on {len(bad)} of {total} inputs, e.g. {real[:1]}', construct='builder small-scope', counterexamples=real[:4])
+    return True
 
 
 def leaf_page_small_scope(P, R, HR):
